@@ -54,7 +54,7 @@ def extra_run(man, tier, seed):
                              'observed': 'seq', 'detail': ''})
     # ---- types the generated runners do not reach (generic structs, nalgebra fields, kernels, processes, statistics built by
     # observe): harness ops serde2.<T> (harness/src/manual_c18.rs)
-    T2 = ['VonMises', 'Categorical', 'Dirichlet', 'DiscreteUniform', 'MixtureGaussian', 'MvGaussian', 'InvWishart', 'NormalInvWishart', 'Crp', 'Partition', 'Empirical', 'KsTwoAsymptotic',
+    T2 = ['StickSequence', 'VonMises', 'Categorical', 'Dirichlet', 'DiscreteUniform', 'MixtureGaussian', 'MvGaussian', 'InvWishart', 'NormalInvWishart', 'Crp', 'Partition', 'Empirical', 'KsTwoAsymptotic',
           'GaussianSuffStat', 'BernoulliSuffStat', 'CategoricalSuffStat', 'PoissonSuffStat', 'BetaSuffStat', 'InvGammaSuffStat',
           'InvGaussianSuffStat', 'UnitPowerLawSuffStat', 'MvGaussianSuffStat', 'RBFKernel', 'ConstantKernel', 'WhiteKernel',
           'RationalQuadratic', 'ExpSineSquaredKernel', 'MaternKernel', 'SEardKernel', 'AddKernel', 'ProductKernel', 'NoiseModel',
@@ -69,6 +69,7 @@ def extra_run(man, tier, seed):
     for ename, e in man.get('enums', {}).items():
         if e.get('serde_derive'):
             allowed |= {snake(v) for v in e['variants']}
+    allowed.add('s')         # rand_xoshiro's Xoshiro256Plus { s } inside StickSequence (a foreign type's field name)
     allowed.add('chol')      # nalgebra's Cholesky { chol } inside GaussianProcess::k_chol (a foreign type's field name)
     n2 = 6 if tier == 'quick' else 200
     l2, m2 = [], []
